@@ -29,8 +29,59 @@ class ThermoField (K : Type) extends Add K, Sub K, Mul K, Div K, Neg K where
   lt : K → K → Bool
   /-- what stands for "Python would have raised here" (NaN over `Float`) -/
   bad : K
+  /-- fused multiply-add `a * b + c` with a single rounding (the BLAS kernel behind `np.dot`) -/
+  fma : K → K → K → K
 
 export ThermoField (lit ofInt le lt)
+
+/-! ### an exact fused multiply-add on doubles (integer arithmetic on the decoded operands) -/
+
+/-- a finite double as `m * 2^e` (`none` for inf / nan) -/
+def decodeF (x : Float) : Option (Int × Int) :=
+  let b : Nat := x.toBits.toNat
+  let sign : Nat := b / 2 ^ 63
+  let ex : Nat := (b / 2 ^ 52) % 2048
+  let fr : Nat := b % 2 ^ 52
+  if ex == 2047 then none
+  else
+    let m : Int := if ex == 0 then (fr : Int) else (fr : Int) + 2 ^ 52
+    let e : Int := (if ex == 0 then 1 else (ex : Int)) - 1075
+    some (if sign == 1 then -m else m, e)
+
+/-- `m * 2^e` rounded to the nearest double, ties to even (`m ≠ 0`) -/
+def encodeF (m : Int) (e : Int) : Float :=
+  let neg := decide (m < 0)
+  let n : Nat := m.natAbs
+  let len : Int := (Nat.log2 n : Int) + 1
+  -- keep 53 bits, but never go below the subnormal exponent -1074
+  let shift : Int := max (len - 53) (-1074 - e)
+  let E := e + shift
+  let q0 : Nat :=
+    if shift > 0 then
+      let sh := shift.toNat
+      let q := n >>> sh
+      let rem := n % 2 ^ sh
+      let half := 2 ^ (sh - 1)
+      if rem > half || (rem == half && q % 2 == 1) then q + 1 else q
+    else n <<< (-shift).toNat
+  -- a carry out of the mantissa
+  let (q, E) := if q0 == 2 ^ 53 then (2 ^ 52, E + 1) else (q0, E)
+  let bits : Nat :=
+    if E + 52 > 1023 then 2047 * 2 ^ 52
+    else if q < 2 ^ 52 then q                          -- subnormal (E = -1074)
+    else (E + 1075).toNat * 2 ^ 52 + (q - 2 ^ 52)
+  Float.ofBits ((if neg then 2 ^ 63 + bits else bits).toUInt64)
+
+/-- correctly rounded `a * b + c` -/
+def fmaExact (a b c : Float) : Float :=
+  match decodeF a, decodeF b, decodeF c with
+  | some (ma, ea), some (mb, eb), some (mc, ec) =>
+    let mp := ma * mb
+    let ep := ea + eb
+    let e := min ep ec
+    let m := mp * 2 ^ (ep - e).toNat + mc * 2 ^ (ec - e).toNat
+    if m == 0 then a * b + c else encodeF m e
+  | _, _, _ => a * b + c
 
 instance : ThermoField Float where
   add := Float.add
@@ -46,6 +97,7 @@ instance : ThermoField Float where
   le a b := decide (a ≤ b)
   lt a b := decide (a < b)
   bad := Float.ofBits 0x7FF8000000000000
+  fma := fmaExact
 
 /-- the values a translated function returns: `None`, `(None, None)`, a number, a pair, an integer -/
 inductive Ret (K : Type) where
@@ -74,11 +126,12 @@ def pySum (xs : List K) : K := xs.foldl (· + ·) (ofInt 0)
 def zip3 {α β γ : Type} (a : List α) (b : List β) (c : List γ) : List (α × β × γ) :=
   List.zip a (List.zip b c)
 
-/-- `np.dot(a, b)` of two vectors -/
+/-- `np.dot(a, b)` of two short vectors: the BLAS kernel accumulates with fused multiply-adds,
+    `fma(a₃, b₃, fma(a₂, b₂, fma(a₁, b₁, a₀ b₀)))` (identified by experiment, checked bit for bit on every run) -/
 def pyDot (a b : List K) : K :=
   match List.zip a b with
   | [] => ofInt 0
-  | p :: r => r.foldl (fun acc q => acc + q.1 * q.2) (p.1 * p.2)
+  | p :: r => r.foldl (fun acc q => ThermoField.fma q.1 q.2 acc) (p.1 * p.2)
 
 /-! ### `power_array` -/
 
